@@ -4,9 +4,9 @@ import struct
 from a816.cpu.cpu_65c816 import AddressingMode, NoOpcodeForOperandSize, Opcode, guess_value_size
 from a816.parse.nodes import ByteNode, ExpressionNode, LongNode, NodeError, OpcodeNode, PointerNode, WordNode
 from vf.contracts.rt import assume, check, ghost, require
-from a816.parse.codegen import generate_opcode
+from a816.parse.codegen import _code_gen, generate_opcode
 from a816.parse.errors import ParserSyntaxError
-from a816.parse.parser_states import parse_opcode
+from a816.parse.parser_states import parse_decl, parse_opcode
 from vf.specs import isa65816, le, syntax
 from vf.specs.supported_set import SUPPORTED, SUPPORTED_FORMS
 
@@ -229,6 +229,23 @@ def data_node_contract(kind, vn, v, addr):
     check("le_truncation", le.is_le(r, v, k))
     after = node.pc_after(addr)
     check("occupies_k_bytes", after.physical == addr.physical + k)
+
+
+def data_statement_bytes_contract(p, resolver, addr, kind, values):
+    """END TO END from the token list of one data directive (`.db a, b, ...` etc., identifiers bound to ANY integers): the real
+    parse_decl -> _code_gen -> real eval_expression -> emit yield, concatenated, the listed values in order, each truncated to the
+    directive's width, little-endian; each node occupies its width in the layout."""
+    k = {"db": 1, "dw": 2, "dl": 3, "pointer": 3}[kind]
+    a = parse_decl(p)
+    check("whole_directive_consumed", p.pos == len(p.tokens) - 1)
+    code = _code_gen([a], resolver, {})
+    check("one_node_per_value", len(code) == len(values))
+    i = 0
+    for node in code:
+        r = node.emit(addr)
+        check("value_in_list_order_le_truncated", le.is_le(r, values[i], k))
+        check("occupies_its_width", node.pc_after(addr).physical == addr.physical + k)
+        i = i + 1
 
 
 def generate_data_contract(kind, node, resolver, tok, exprs):
